@@ -40,7 +40,8 @@ Inductive ev :=
 | ESecret (sender dest : N)       (* GroupDeviceChainKeyAdded *)
 | EInit (m : N)                   (* MultiMemberGroupInitialMemberAnnounced *)
 | ECred (c : N)                   (* AccountVerifiedCredentialRegistered *)
-| ENoop (k : N).                  (* payload sent, replicating, admin role granted, alias resolver: no indexed state *)
+| ENoop (k : N)                   (* payload sent, replicating, admin role granted, alias resolver: no indexed state *)
+| EAlias (d key : N).             (* ContactAliasKeyAdded: only queued by its handler, resolved after the scan (Model.C04_Alias) *)
 
 Record entry := mkE { e_clock : N; e_id : N; e_ev : ev }.
 
@@ -143,6 +144,7 @@ Definition hscan (own : N) (s : gstate) (e : ev) : gstate :=
   | ECred c =>
       mkG (g_contact s) (g_enabled s) (g_seed s) (g_group s) (g_dev s) (g_sent s) (g_admin s) (g_creds s ++ [c])
   | ENoop _ => s
+  | EAlias _ _ => s
   end.
 
 (* what UpdateIndex clears before scanning *)
@@ -197,6 +199,7 @@ Definition happly (own : N) (s : gstate) (e : ev) : gstate :=
   | EInit m => mkG (g_contact s) (g_enabled s) (g_seed s) (g_group s) (g_dev s) (g_sent s) (upd (g_admin s) m true) (g_creds s)
   | ECred c => mkG (g_contact s) (g_enabled s) (g_seed s) (g_group s) (g_dev s) (g_sent s) (g_admin s) (c :: g_creds s)
   | ENoop _ => s
+  | EAlias _ _ => s
   end.
 
 (* log-order application, oldest first *)
